@@ -15,6 +15,8 @@ type Item struct {
 	Cs   string
 	Cn   *int
 	Ct   *string
+	Cor  int
+	Band string
 	Mark int
 }
 
@@ -58,7 +60,7 @@ func (s Stored) Live() bool {
 // Create creates the table with the declared column types gorm's AutoMigrate
 // would use on SQLite (integer / text / datetime).
 func (t TableSpec) Create(db *sql.DB) error {
-	cols := "id integer PRIMARY KEY, ca integer, cb integer, cs text, cn integer, ct text, mark integer"
+	cols := "id integer PRIMARY KEY, ca integer, cb integer, cs text, cn integer, ct text, cor integer, band text, mark integer"
 	for _, c := range t.softCols() {
 		cols += ", " + c + " datetime"
 	}
@@ -94,7 +96,7 @@ func (t TableSpec) Insert(db *sql.DB, rows []InsertRow) error {
 		if r.Ct != nil {
 			ct = "'" + *r.Ct + "'"
 		}
-		fmt.Fprintf(&b, "(%d,%d,%d,'%s',%s,%s,0", r.ID, r.Ca, r.Cb, r.Cs, cn, ct)
+		fmt.Fprintf(&b, "(%d,%d,%d,'%s',%s,%s,%d,'%s',0", r.ID, r.Ca, r.Cb, r.Cs, cn, ct, r.Cor, r.Band)
 		for i := range t.softCols() {
 			// the first soft-delete column carries the mark, further ones stay NULL
 			if r.DeletedAt == "" || i > 0 {
@@ -114,7 +116,7 @@ func (t TableSpec) Insert(db *sql.DB, rows []InsertRow) error {
 
 // Dump reads the physical rows ordered by id.
 func (t TableSpec) Dump(db *sql.DB) ([]Stored, error) {
-	q := "SELECT id, ca, cb, cs, cn, ct, mark"
+	q := "SELECT id, ca, cb, cs, cn, ct, cor, band, mark"
 	soft := t.softCols()
 	if len(soft) > 0 {
 		parts := make([]string, len(soft))
@@ -138,7 +140,7 @@ func (t TableSpec) Dump(db *sql.DB) ([]Stored, error) {
 		var ct sql.NullString
 		var mark sql.NullInt64
 		extra := make([]sql.NullInt64, len(t.Extra))
-		dst := []interface{}{&s.ID, &s.Ca, &s.Cb, &s.Cs, &cn, &ct, &mark}
+		dst := []interface{}{&s.ID, &s.Ca, &s.Cb, &s.Cs, &cn, &ct, &s.Cor, &s.Band, &mark}
 		if len(soft) > 0 {
 			dst = append(dst, &s.DeletedAt)
 		}
